@@ -67,13 +67,35 @@ def env : Env Inst State where
   step := step
   done := done
 
+/-- the single-column test `actions.size(-1) == 1` at the top of `_get_reward` -/
+def rewardSpecial (as : List Nat) : Bool :=
+  Params.opRewardSpecialCmp.evalNat as.length Params.opRewardSpecialWidth
+
 /-- `_get_reward`: collected prize; a batch whose action tensor has a single column returns 0 (after
 asserting that the column is all depot). -/
 def reward (i : Inst) (as : List Nat) : Int :=
-  if as.length = 1 then 0 else gatherSum i.prize as
+  if rewardSpecial as then 0 else gatherSum i.prize as
 
-/-- the assertion inside the single-column special case of `_get_reward` -/
-def rewardAssert (as : List Nat) : Bool := as.length != 1 || as == [0]
+/-- the assertion `(actions == 0).all()` inside the single-column special case of `_get_reward` -/
+def rewardAssert (as : List Nat) : Bool := !(rewardSpecial as) || as.all (· == 0)
+
+/-- `_reset`'s pre-computation `max_length − ‖depot − loc_j‖ − 1e-6` BEFORE float32 rounding, scaled by the
+denominator of the extracted constant: `den · (L − D j 0) + num · U`, where `U` is the integer value of
+`1.0` in the instance's unit and `(num, den) = Params.opResetMargin` (= −1e-6). -/
+def budgetSpecScaled (i : Inst) (U : Int) (j : Nat) : Int :=
+  Params.opResetMargin.2 * (i.L - i.D j 0) + Params.opResetMargin.1 * U
+
+/-- the read-back budgets are the pre-computation up to a rounding error of `rho` units -/
+def Precomp (i : Inst) (U rho : Int) : Prop :=
+  ∀ j, 1 ≤ j → j ≤ i.n →
+    budgetSpecScaled i U j - Params.opResetMargin.2 * rho ≤ Params.opResetMargin.2 * i.budget j ∧
+    Params.opResetMargin.2 * i.budget j ≤ budgetSpecScaled i U j + Params.opResetMargin.2 * rho
+
+/-- executable version (the harness evaluates it on every read-back instance) -/
+def precomp (i : Inst) (U rho : Int) : Bool :=
+  (List.range i.n).all (fun k =>
+    decide (budgetSpecScaled i U (k + 1) - Params.opResetMargin.2 * rho ≤ Params.opResetMargin.2 * i.budget (k + 1)) &&
+    decide (Params.opResetMargin.2 * i.budget (k + 1) ≤ budgetSpecScaled i U (k + 1) + Params.opResetMargin.2 * rho))
 
 /-- `check_solution_validity` (True = no assertion raised, no gather out of range). -/
 def check (i : Inst) (as : List Nat) : Bool :=
@@ -87,15 +109,32 @@ namespace Rl4co.Op
 open Rl4co.Prize
 
 /-- `check_solution_validity` on a BATCH whose action tensor has a single column (`actions.size(-1) == 1`).
-`gather_by_index(td["locs"], actions)` squeezes the step dimension of size one, so `get_tour_length`
-rolls over the BATCH dimension: the "length" every row is tested with is the perimeter of the polygon
-through the nodes selected by the rows (0 for a batch of one).  `rows` = (instance, selected node) per
-row; `X r r'` = distance between the node selected in row `r` and the node selected in row `r'`
-(cross-row geometry, data).  The duplicate test is vacuous for one column. -/
-def checkSingleColumnBatch (rows : List (Inst × Nat)) (X : Nat → Nat → Int) : Bool :=
-  let B := rows.length
-  let P := ((List.range B).map (fun r => X r ((r + 1) % B))).sum
+Since upstream fix 9be001b the locations are gathered with `squeeze=False`, so the step dimension of
+size one is kept and `get_tour_length` rolls over it: the length every row is tested with is the
+distance of its selected node to itself.  (Before the fix `gather_by_index` squeezed the step
+dimension and the roll ran over the BATCH: every row was tested with the perimeter of the polygon
+through the rows' nodes.)  `rows` = (instance, selected node) per row.  The duplicate test is vacuous
+for one column. -/
+def checkSingleColumnBatch (rows : List (Inst × Nat)) : Bool :=
   rows.all (fun ia => decide (ia.2 ≤ ia.1.n)) &&
-  rows.all (fun ia => (List.range (ia.1.n + 1)).all (fun j => Params.opCheckLenCmp.eval P (ia.1.cbound j)))
+  rows.all (fun ia => (List.range (ia.1.n + 1)).all (fun j =>
+    Params.opCheckLenCmp.eval (ia.1.D ia.2 ia.2) (ia.1.cbound j)))
+
+end Rl4co.Op
+
+namespace Rl4co.Op
+
+/-- the checker's bound `max_length + dist + 1e-6 + 1e-5` re-derived from the reset state is `L + 1e-5`
+(extracted constant `Params.opCheckTol`) up to a rounding error of `rho` units; `U` = value of 1.0 -/
+def CheckPrecomp (i : Inst) (U rho : Int) : Prop :=
+  ∀ j, j ≤ i.n →
+    Params.opCheckTol.2 * i.L + Params.opCheckTol.1 * U - Params.opCheckTol.2 * rho ≤ Params.opCheckTol.2 * i.cbound j ∧
+    Params.opCheckTol.2 * i.cbound j ≤ Params.opCheckTol.2 * i.L + Params.opCheckTol.1 * U + Params.opCheckTol.2 * rho
+
+/-- executable version (evaluated by the harness on every read-back instance) -/
+def checkPrecomp (i : Inst) (U rho : Int) : Bool :=
+  (List.range (i.n + 1)).all (fun j =>
+    decide (Params.opCheckTol.2 * i.L + Params.opCheckTol.1 * U - Params.opCheckTol.2 * rho ≤ Params.opCheckTol.2 * i.cbound j) &&
+    decide (Params.opCheckTol.2 * i.cbound j ≤ Params.opCheckTol.2 * i.L + Params.opCheckTol.1 * U + Params.opCheckTol.2 * rho))
 
 end Rl4co.Op
